@@ -1,11 +1,11 @@
 ------------------------------ MODULE Collect ------------------------------
 (***************************************************************************)
-(* One measurement round of core/client/client.go:                         *)
+(* Measurement rounds of core/client/client.go on ONE collector value:     *)
 (*                                                                         *)
 (*   ReferenceClockClient.MeasureClockOffsets(ctx, refclks, ms)            *)
 (*     CAS numOpsInProgress 0->1 (else panic "too many ...")               *)
 (*     defer CAS numOpsInProgress 1->0 (else panic "inconsistent ...")     *)
-(*     msc := make(chan Measurement)              -- unbuffered            *)
+(*     msc := make(chan Measurement)     -- unbuffered, ONE PER CALL       *)
 (*     for each refclk: go { r := refclk.MeasureClockOffset(ctx); msc<-r } *)
 (*     collectMeasurements(ctx, ms, msc):                                  *)
 (*       i, j := 0, 0; n := len(ms)                                        *)
@@ -18,6 +18,7 @@
 (*                                                                         *)
 (* and its caller core/sync/sync.go measureOffsetToRefClks                 *)
 (*     ctx, cancel := context.WithTimeout(..., timeout); defer cancel()    *)
+(* which is called once per synchronisation round, for ever.               *)
 (*                                                                         *)
 (* Processes (hand-written, PlusCal style: one pc per process, one action  *)
 (* per label):                                                             *)
@@ -28,19 +29,33 @@
 (*   Main2     a second call on the same collector (zero clocks), issued   *)
 (*             at an arbitrary instant after Main's CAS                    *)
 (*   Tick      virtual time                                                *)
+(*   NewRound  the caller starts the NEXT round on the same collector, at  *)
+(*             an arbitrary instant (up to MaxGap units) after the         *)
+(*             previous one returned and was cancelled.  What the previous *)
+(*             rounds left behind stays alive and keeps running:           *)
+(*               osnd  senders whose measurement call has not returned yet *)
+(*                     (stragglers) or that are blocked in their send      *)
+(*               odr   drain goroutines still waiting for such senders     *)
+(*             each tied to the channel of the round that created it.      *)
+(*             num (numOpsInProgress) is the only thing the collector      *)
+(*             itself keeps.                                               *)
 (*                                                                         *)
-(* The rendezvous on the unbuffered channel is ONE step of two processes   *)
-(* (MRecv(k) = Main and Sender k; DRecv(k) = Drain and Sender k).  The      *)
-(* select is modelled by MRecv(k) and MCtx being separately enabled        *)
-(* actions of the same label: whenever a sender is blocked in the send and  *)
-(* ctx.Done() is closed, either may be taken, also at the same instant.    *)
-(* (Go commits a parked select to the case that fires first and chooses    *)
-(* pseudo-randomly when several are ready on entry; both are refinements   *)
-(* of this nondeterministic choice.)                                       *)
+(* The rendezvous on an unbuffered channel is ONE step of two processes:   *)
+(* a receiver (Main's loop, a drain) and a sender blocked ON THE SAME      *)
+(* CHANNEL.  Channels are identified by the round that made them           *)
+(* (Chan(r)); in the code as written a receiver of round r therefore only  *)
+(* ever meets senders of round r.  The select is modelled by MRecv(k) and  *)
+(* MCtx being separately enabled actions of the same label: whenever a     *)
+(* sender is blocked in the send and ctx.Done() is closed, either may be   *)
+(* taken, also at the same instant.  (Go commits a parked select to the    *)
+(* case that fires first and chooses pseudo-randomly when several are      *)
+(* ready on entry; both are refinements of this nondeterministic choice.)  *)
 (*                                                                         *)
-(* Time.  now in 0..TEnd, the deadline is D = 2.  Clock k's measurement    *)
-(* call returns at dl[k]: 1 (before), 2 (at), 3 (after the deadline,       *)
-(* ignoring ctx) or Never (blocks until ctx.Done(), then returns an error).*)
+(* Time.  now counts from the start of the CURRENT round, 0..TEnd, the     *)
+(* deadline is D = 2.  Clock k's measurement call returns at dl[k]: 1      *)
+(* (before), 2 (at), 3 (after the deadline, ignoring ctx; during the next  *)
+(* round if that starts at once), 5 (long after: after the next round's    *)
+(* deadline) or Never (blocks until ctx.Done(), then returns an error).    *)
 (* Time is that of testing/synctest: it advances only when no process can  *)
 (* take a step (Tick is enabled only when ~Busy) -- "maximal progress".    *)
 (* The statement "returns no later than the deadline" is about this        *)
@@ -48,40 +63,58 @@
 (***************************************************************************)
 EXTENDS Integers, Sequences, FiniteSets, TLC
 
-CONSTANTS MaxClocks,  \* largest number of reference clocks
+CONSTANTS MaxClocks,  \* largest number of reference clocks of a round
+          Rounds,     \* largest number of rounds on the one collector
+          DVals,      \* finite completion times a clock may have
           Overlap,    \* BOOLEAN: is there a second, overlapping call (Main2)
+          Hist,       \* BOOLEAN: keep the finished rounds in hist (generators)
           Fault       \* "none" = the code as written; other values are
                       \* single-site deviations used to show that the
                       \* property section is not vacuous (see CollectMC)
 
-D     == 2
-Never == 4
-TEnd  == 3
+D      == 2
+Never  == 9
+MaxGap == 1
+SetMax(S) == CHOOSE x \in S : \A y \in S : y <= x
+TEnd   == SetMax(DVals \cup {3})
 
 VARIABLES
-  n, dl, oc,          \* the scenario: #clocks, completion time, "ok"/"err"
-  now, ctxDone,       \* virtual time; ctx.Done() closed
+  rnd,                \* number of the current round (1 .. Rounds)
+  n, dl, oc,          \* its scenario: #clocks, completion time, "ok"/"err"
+  now, ctxDone,       \* virtual time since its start; its ctx.Done() closed
   num,                \* c.numOpsInProgress
   mpc, i, j, ms,      \* Main: pc, loop counters, result slice (0 = untouched)
   spc,                \* Sender pcs
   dpc, dn,            \* Drain
   p2,                 \* Main2: idle | in | done | panicked
-  \* history variables (used by the property section only)
+  osnd, odr,          \* left behind by earlier rounds (sequences of records)
+  \* history variables (used by the property section / generators only)
   got,                \* set of clocks whose result Main received
   rt,                 \* virtual time at which Main returned (-1: not yet)
-  p2phase             \* "none" | "during" | "after": was Main in progress
+  p2phase,            \* "none" | "during" | "after": was Main in progress
                       \* when Main2 executed its CAS
-vars == <<n, dl, oc, now, ctxDone, num, mpc, i, j, ms, spc, dpc, dn, p2, got, rt, p2phase>>
+  gap, live,          \* when the current round started: time since the
+                      \* previous return; #goroutines of earlier rounds alive
+  hist                \* the finished rounds (Hist only)
+scen  == <<n, dl, oc>>
+mvars == <<mpc, i, j, ms>>
+hvars == <<gap, live, hist>>
+vars  == <<rnd, n, dl, oc, now, ctxDone, num, mpc, i, j, ms, spc, dpc, dn, p2, osnd, odr,
+           got, rt, p2phase, gap, live, hist>>
 
 Clocks == 1 .. n
 InProgress == {"spawn", "loop", "godrain", "restore"}
 Range(s) == {s[x] : x \in DOMAIN s}
+\* the channel made by round r
+Chan(r) == IF Fault = "sharedchan" THEN 0 ELSE r
+RemoveAt(s, x) == SubSeq(s, 1, x - 1) \o SubSeq(s, x + 1, Len(s))
 
 Scenarios(m) ==
-  {sc \in [d : [1 .. m -> {1, 2, 3, Never}], o : [1 .. m -> {"ok", "err"}]] :
+  {sc \in [d : [1 .. m -> DVals \cup {Never}], o : [1 .. m -> {"ok", "err"}]] :
       \A k \in 1 .. m : sc.d[k] = Never => sc.o[k] = "err"}
 
 Init ==
+  /\ rnd = 1
   /\ n \in 0 .. MaxClocks
   /\ \E sc \in Scenarios(n) : dl = sc.d /\ oc = sc.o
   /\ now = 0 /\ ctxDone = FALSE /\ num = 0
@@ -89,6 +122,7 @@ Init ==
   /\ spc = [k \in 1 .. n |-> "idle"]
   /\ dpc = "none" /\ dn = 0
   /\ p2 = "idle" /\ got = {} /\ rt = -1 /\ p2phase = "none"
+  /\ osnd = <<>> /\ odr = <<>> /\ gap = 0 /\ live = 0 /\ hist = <<>>
 
 ----------------------------------------------------------------------------
 (* Main *)
@@ -97,7 +131,7 @@ MCas ==
   /\ IF num = 0 \/ Fault = "noguard"
        THEN num' = 1 /\ mpc' = "spawn" /\ rt' = rt
        ELSE num' = num /\ mpc' = "panicked" /\ rt' = now
-  /\ UNCHANGED <<n, dl, oc, now, ctxDone, i, j, ms, spc, dpc, dn, p2, got, p2phase>>
+  /\ UNCHANGED <<rnd, scen, now, ctxDone, i, j, ms, spc, dpc, dn, p2, osnd, odr, got, p2phase, hvars>>
 
 \* the `go` statements; a sender cannot do anything observable before its
 \* measurement call returns, so starting all of them is one step
@@ -105,7 +139,21 @@ MSpawn ==
   /\ mpc = "spawn"
   /\ spc' = [k \in 1 .. n |-> "measuring"]
   /\ mpc' = "loop"
-  /\ UNCHANGED <<n, dl, oc, now, ctxDone, num, i, j, ms, dpc, dn, p2, got, rt, p2phase>>
+  /\ UNCHANGED <<rnd, scen, now, ctxDone, num, i, j, ms, dpc, dn, p2, osnd, odr, got, rt, p2phase, hvars>>
+
+\* what the loop body does with a received measurement: ok = no error,
+\* v = what is stored (the clock's number; 100*r + k for a clock of an
+\* earlier round r)
+Take(ok, v) ==
+  IF Fault = "ij"
+    THEN \* deviation: the loop counts stored results instead of received ones
+         IF ok /\ j # n
+           THEN ms' = [ms EXCEPT ![j + 1] = v] /\ j' = j + 1 /\ i' = i + 1
+           ELSE UNCHANGED <<ms, j, i>>
+    ELSE /\ IF ok /\ j # n
+              THEN ms' = [ms EXCEPT ![j + 1] = v] /\ j' = j + 1
+              ELSE UNCHANGED <<ms, j>>
+         /\ i' = i + 1
 
 \* case m := <-msc   (rendezvous with Sender k, which completes its send)
 MRecv(k) ==
@@ -113,29 +161,30 @@ MRecv(k) ==
   /\ spc[k] = "sending"
   /\ spc' = [spc EXCEPT ![k] = "done"]
   /\ got' = got \cup {k}
-  /\ IF Fault = "ij"
-       THEN \* deviation: the loop counts stored results instead of received ones
-            IF oc[k] = "ok" /\ j # n
-              THEN ms' = [ms EXCEPT ![j + 1] = k] /\ j' = j + 1 /\ i' = i + 1
-              ELSE UNCHANGED <<ms, j, i>>
-       ELSE /\ IF oc[k] = "ok" /\ j # n
-                 THEN ms' = [ms EXCEPT ![j + 1] = k] /\ j' = j + 1
-                 ELSE UNCHANGED <<ms, j>>
-            /\ i' = i + 1
-  /\ UNCHANGED <<n, dl, oc, now, ctxDone, num, mpc, dpc, dn, p2, rt, p2phase>>
+  /\ Take(oc[k] = "ok", k)
+  /\ UNCHANGED <<rnd, scen, now, ctxDone, num, mpc, dpc, dn, p2, osnd, odr, rt, p2phase, hvars>>
+
+\* the same, with a sender of an earlier round blocked on the same channel
+\* (never enabled unless rounds share a channel)
+MRecvOld(x) ==
+  /\ mpc = "loop" /\ i # n
+  /\ osnd[x].st = "sending" /\ osnd[x].c = Chan(rnd)
+  /\ osnd' = RemoveAt(osnd, x)
+  /\ Take(osnd[x].v # 0, osnd[x].v)
+  /\ UNCHANGED <<rnd, scen, now, ctxDone, num, mpc, spc, dpc, dn, p2, odr, got, rt, p2phase, hvars>>
 
 \* case <-ctx.Done(): break loop
 MCtx ==
   /\ mpc = "loop" /\ i # n
   /\ ctxDone /\ Fault # "noctx"
   /\ mpc' = "godrain"
-  /\ UNCHANGED <<n, dl, oc, now, ctxDone, num, i, j, ms, spc, dpc, dn, p2, got, rt, p2phase>>
+  /\ UNCHANGED <<rnd, scen, now, ctxDone, num, i, j, ms, spc, dpc, dn, p2, osnd, odr, got, rt, p2phase, hvars>>
 
 \* for i != n  is false
 MExit ==
   /\ mpc = "loop" /\ i = n
   /\ mpc' = "godrain"
-  /\ UNCHANGED <<n, dl, oc, now, ctxDone, num, i, j, ms, spc, dpc, dn, p2, got, rt, p2phase>>
+  /\ UNCHANGED <<rnd, scen, now, ctxDone, num, i, j, ms, spc, dpc, dn, p2, osnd, odr, got, rt, p2phase, hvars>>
 
 \* go func(n int){...}(n - i); return j
 MGoDrain ==
@@ -144,7 +193,7 @@ MGoDrain ==
        [] Fault = "drain_nj" -> dpc' = "run" /\ dn' = n - j
        [] OTHER              -> dpc' = "run" /\ dn' = n - i
   /\ mpc' = "restore"
-  /\ UNCHANGED <<n, dl, oc, now, ctxDone, num, i, j, ms, spc, p2, got, rt, p2phase>>
+  /\ UNCHANGED <<rnd, scen, now, ctxDone, num, i, j, ms, spc, p2, osnd, odr, got, rt, p2phase, hvars>>
 
 \* deferred CAS 1 -> 0, then MeasureClockOffsets returns (or panics)
 MRestore ==
@@ -153,16 +202,17 @@ MRestore ==
   /\ IF Fault = "norestore" THEN num' = num /\ mpc' = "done"
      ELSE IF num = 1 THEN num' = 0 /\ mpc' = "done"
      ELSE num' = num /\ mpc' = "panicked"
-  /\ UNCHANGED <<n, dl, oc, now, ctxDone, i, j, ms, spc, dpc, dn, p2, got, p2phase>>
+  /\ UNCHANGED <<rnd, scen, now, ctxDone, i, j, ms, spc, dpc, dn, p2, osnd, odr, got, p2phase, hvars>>
 
-MainNext == MCas \/ MSpawn \/ (\E k \in Clocks : MRecv(k)) \/ MCtx \/ MExit \/ MGoDrain \/ MRestore
+MainNext == MCas \/ MSpawn \/ (\E k \in Clocks : MRecv(k)) \/ (\E x \in DOMAIN osnd : MRecvOld(x))
+            \/ MCtx \/ MExit \/ MGoDrain \/ MRestore
 
 (* Sender k: refclk.MeasureClockOffset(ctx) returns *)
 SReturn(k) ==
   /\ spc[k] = "measuring"
   /\ IF dl[k] = Never THEN ctxDone ELSE now >= dl[k]
   /\ spc' = [spc EXCEPT ![k] = "sending"]
-  /\ UNCHANGED <<n, dl, oc, now, ctxDone, num, mpc, i, j, ms, dpc, dn, p2, got, rt, p2phase>>
+  /\ UNCHANGED <<rnd, scen, now, ctxDone, num, mvars, dpc, dn, p2, osnd, odr, got, rt, p2phase, hvars>>
 
 (* Drain *)
 DRecv(k) ==
@@ -170,26 +220,68 @@ DRecv(k) ==
   /\ spc[k] = "sending"
   /\ spc' = [spc EXCEPT ![k] = "done"]
   /\ dn' = dn - 1
-  /\ UNCHANGED <<n, dl, oc, now, ctxDone, num, mpc, i, j, ms, dpc, p2, got, rt, p2phase>>
+  /\ UNCHANGED <<rnd, scen, now, ctxDone, num, mvars, dpc, p2, osnd, odr, got, rt, p2phase, hvars>>
+
+DRecvOld(x) ==
+  /\ dpc = "run" /\ dn # 0
+  /\ osnd[x].st = "sending" /\ osnd[x].c = Chan(rnd)
+  /\ osnd' = RemoveAt(osnd, x)
+  /\ dn' = dn - 1
+  /\ UNCHANGED <<rnd, scen, now, ctxDone, num, mvars, spc, dpc, p2, odr, got, rt, p2phase, hvars>>
 
 DExit ==
   /\ dpc = "run" /\ dn = 0
   /\ dpc' = "done"
-  /\ UNCHANGED <<n, dl, oc, now, ctxDone, num, mpc, i, j, ms, spc, dn, p2, got, rt, p2phase>>
+  /\ UNCHANGED <<rnd, scen, now, ctxDone, num, mvars, spc, dn, p2, osnd, odr, got, rt, p2phase, hvars>>
 
-DrainNext == (\E k \in Clocks : DRecv(k)) \/ DExit
+DrainNext == (\E k \in Clocks : DRecv(k)) \/ (\E x \in DOMAIN osnd : DRecvOld(x)) \/ DExit
+
+(* What earlier rounds left behind.  osnd[x] = [c: channel, t: time (in the  *)
+(* current round's frame) at which the measurement call returns, st:        *)
+(* "measuring" | "sending", v: 0 for an error result, else 100*round+clock]; *)
+(* odr[y] = [c: channel, dn: receives still to do].  Finished ones are       *)
+(* removed.                                                                  *)
+OSReturn(x) ==
+  /\ osnd[x].st = "measuring" /\ now >= osnd[x].t
+  /\ osnd' = [osnd EXCEPT ![x].st = "sending"]
+  /\ UNCHANGED <<rnd, scen, now, ctxDone, num, mvars, spc, dpc, dn, p2, odr, got, rt, p2phase, hvars>>
+
+ODRecvOld(y, x) ==
+  /\ odr[y].dn # 0
+  /\ osnd[x].st = "sending" /\ osnd[x].c = odr[y].c
+  /\ osnd' = RemoveAt(osnd, x)
+  /\ odr' = [odr EXCEPT ![y].dn = @ - 1]
+  /\ UNCHANGED <<rnd, scen, now, ctxDone, num, mvars, spc, dpc, dn, p2, got, rt, p2phase, hvars>>
+
+\* an old drain meets a sender of the current round (never enabled unless
+\* rounds share a channel)
+ODRecvCur(y, k) ==
+  /\ odr[y].dn # 0 /\ odr[y].c = Chan(rnd)
+  /\ spc[k] = "sending"
+  /\ spc' = [spc EXCEPT ![k] = "done"]
+  /\ odr' = [odr EXCEPT ![y].dn = @ - 1]
+  /\ UNCHANGED <<rnd, scen, now, ctxDone, num, mvars, dpc, dn, p2, osnd, got, rt, p2phase, hvars>>
+
+ODExit(y) ==
+  /\ odr[y].dn = 0
+  /\ odr' = RemoveAt(odr, y)
+  /\ UNCHANGED <<rnd, scen, now, ctxDone, num, mvars, spc, dpc, dn, p2, osnd, got, rt, p2phase, hvars>>
+
+OldNext ==
+  \/ \E x \in DOMAIN osnd : OSReturn(x)
+  \/ \E y \in DOMAIN odr : ODExit(y) \/ (\E x \in DOMAIN osnd : ODRecvOld(y, x)) \/ (\E k \in Clocks : ODRecvCur(y, k))
 
 (* the deadline timer of context.WithTimeout *)
 Timer ==
   /\ now = D /\ ~ctxDone
   /\ ctxDone' = TRUE
-  /\ UNCHANGED <<n, dl, oc, now, num, mpc, i, j, ms, spc, dpc, dn, p2, got, rt, p2phase>>
+  /\ UNCHANGED <<rnd, scen, now, num, mvars, spc, dpc, dn, p2, osnd, odr, got, rt, p2phase, hvars>>
 
 (* the caller's deferred cancel() *)
 Cancel ==
   /\ mpc \in {"done", "panicked"} /\ ~ctxDone
   /\ ctxDone' = TRUE
-  /\ UNCHANGED <<n, dl, oc, now, num, mpc, i, j, ms, spc, dpc, dn, p2, got, rt, p2phase>>
+  /\ UNCHANGED <<rnd, scen, now, num, mvars, spc, dpc, dn, p2, osnd, odr, got, rt, p2phase, hvars>>
 
 (* Main2: a call with zero clocks on the same collector.  Its CAS may be    *)
 (* executed at any instant after Main's (it is not urgent).                 *)
@@ -199,38 +291,79 @@ Call2 ==
   /\ IF num = 0 \/ Fault = "noguard"
        THEN num' = 1 /\ p2' = "in"
        ELSE num' = num /\ p2' = "panicked"
-  /\ UNCHANGED <<n, dl, oc, now, ctxDone, mpc, i, j, ms, spc, dpc, dn, got, rt>>
+  /\ UNCHANGED <<rnd, scen, now, ctxDone, mvars, spc, dpc, dn, osnd, odr, got, rt, hvars>>
 
 \* empty loop, drain(0), deferred CAS back
 Fin2 ==
   /\ p2 = "in"
   /\ IF num = 1 THEN num' = 0 /\ p2' = "done" ELSE num' = num /\ p2' = "panicked"
-  /\ UNCHANGED <<n, dl, oc, now, ctxDone, mpc, i, j, ms, spc, dpc, dn, got, rt, p2phase>>
+  /\ UNCHANGED <<rnd, scen, now, ctxDone, mvars, spc, dpc, dn, osnd, odr, got, rt, p2phase, hvars>>
+
+(* The caller's next round on the same collector: any scenario, at any      *)
+(* instant up to MaxGap after the previous round returned and its context   *)
+(* was cancelled (not urgent, so also before goroutines that are ready to   *)
+(* run have run).  The senders and the drain of the round that ends here    *)
+(* join osnd / odr; times are re-based to the new round's start.            *)
+SeqOf(f, m) == [x \in 1 .. m |-> f[x]]
+Max0(x) == IF x < 0 THEN 0 ELSE x
+RoundRec ==
+  [n |-> n, d |-> SeqOf(dl, n), o |-> SeqOf(oc, n), gap |-> gap, live |-> live, rt |-> rt, j |-> j,
+   prefix |-> SubSeq(ms, 1, j), phase |-> p2phase, refused |-> (p2 = "panicked")]
+Leftover ==
+  SelectSeq([k \in 1 .. n |->
+               [c |-> Chan(rnd), st |-> spc[k],
+                t |-> IF spc[k] = "sending" \/ dl[k] = Never THEN 0 ELSE Max0(dl[k] - now),
+                v |-> IF oc[k] = "ok" THEN 100 * rnd + k ELSE 0]],
+            LAMBDA s : s.st \in {"measuring", "sending"})
+NewRoundWith(m, sc) ==
+  /\ rnd < Rounds
+  /\ mpc = "done" /\ ctxDone /\ p2 # "in"
+  /\ now - rt <= MaxGap
+  /\ rnd' = rnd + 1
+  /\ osnd' = [x \in 1 .. Len(osnd) |-> [osnd[x] EXCEPT !.t = IF osnd[x].st = "sending" THEN 0 ELSE Max0(@ - now)]]
+               \o Leftover
+  /\ odr' = odr \o (IF dpc = "run" THEN <<[c |-> Chan(rnd), dn |-> dn]>> ELSE <<>>)
+  /\ gap' = now - rt
+  /\ live' = Len(osnd') + Len(odr')
+  /\ hist' = IF Hist THEN Append(hist, RoundRec) ELSE hist
+  /\ n' = m /\ dl' = sc.d /\ oc' = sc.o
+  /\ ms' = [x \in 1 .. m |-> 0]
+  /\ spc' = [k \in 1 .. m |-> "idle"]
+  /\ now' = 0 /\ ctxDone' = FALSE
+  /\ mpc' = "cas" /\ i' = 0 /\ j' = 0
+  /\ dpc' = "none" /\ dn' = 0
+  /\ p2' = "idle" /\ got' = {} /\ rt' = -1 /\ p2phase' = "none"
+  /\ num' = num
+NewRound == rnd < Rounds /\ \E m \in 0 .. MaxClocks : \E sc \in Scenarios(m) : NewRoundWith(m, sc)
 
 (* everything that happens "now": explicit enabling condition of the urgent *)
 (* actions (checked equal to ENABLED by the invariant BusyIsEnabled)        *)
+OldSending(c) == \E x \in DOMAIN osnd : osnd[x].st = "sending" /\ osnd[x].c = c
+CurSending == \E k \in Clocks : spc[k] = "sending"
 Busy ==
   \/ mpc \in {"cas", "spawn", "godrain", "restore"}
-  \/ mpc = "loop" /\ (i = n \/ (ctxDone /\ Fault # "noctx") \/ \E k \in Clocks : spc[k] = "sending")
+  \/ mpc = "loop" /\ (i = n \/ (ctxDone /\ Fault # "noctx") \/ CurSending \/ OldSending(Chan(rnd)))
   \/ \E k \in Clocks : spc[k] = "measuring" /\ (IF dl[k] = Never THEN ctxDone ELSE now >= dl[k])
-  \/ dpc = "run" /\ (dn = 0 \/ \E k \in Clocks : spc[k] = "sending")
+  \/ dpc = "run" /\ (dn = 0 \/ CurSending \/ OldSending(Chan(rnd)))
+  \/ \E x \in DOMAIN osnd : osnd[x].st = "measuring" /\ now >= osnd[x].t
+  \/ \E y \in DOMAIN odr : odr[y].dn = 0 \/ OldSending(odr[y].c) \/ (odr[y].c = Chan(rnd) /\ CurSending)
   \/ now = D /\ ~ctxDone
   \/ mpc \in {"done", "panicked"} /\ ~ctxDone
   \/ p2 = "in"
 
-Urgent == MainNext \/ (\E k \in Clocks : SReturn(k)) \/ DrainNext \/ Timer \/ Cancel \/ Fin2
+Urgent == MainNext \/ (\E k \in Clocks : SReturn(k)) \/ DrainNext \/ OldNext \/ Timer \/ Cancel \/ Fin2
 
 Tick ==
   /\ now < TEnd /\ ~Busy
   /\ now' = now + 1
-  /\ UNCHANGED <<n, dl, oc, ctxDone, num, mpc, i, j, ms, spc, dpc, dn, p2, got, rt, p2phase>>
+  /\ UNCHANGED <<rnd, scen, ctxDone, num, mvars, spc, dpc, dn, p2, osnd, odr, got, rt, p2phase, hvars>>
 
-Next == Urgent \/ Call2 \/ Tick
+Next == Urgent \/ Call2 \/ NewRound \/ Tick
 
 Fairness ==
   /\ WF_vars(MainNext)
   /\ \A k \in 1 .. MaxClocks : WF_vars(k \in Clocks /\ SReturn(k))
-  /\ WF_vars(DrainNext)
+  /\ WF_vars(DrainNext) /\ WF_vars(OldNext)
   /\ WF_vars(Timer) /\ WF_vars(Cancel) /\ WF_vars(Fin2) /\ WF_vars(Tick)
 
 Spec     == Init /\ [][Next]_vars
@@ -238,15 +371,19 @@ FairSpec == Spec /\ Fairness
 
 ----------------------------------------------------------------------------
 (***************************************************************************)
-(* Property section (C16).                                                 *)
+(* Property section (C16).  Every clause is about the CURRENT round; as    *)
+(* invariants they are therefore judged for each round of every history.   *)
 (***************************************************************************)
 Prefix == SubSeq(ms, 1, j)
-MeasurementsReturned == mpc # "cas" /\ mpc # "spawn" /\ \A k \in Clocks : spc[k] \in {"sending", "done"}
+MeasurementsReturned ==
+  /\ mpc # "cas" /\ mpc # "spawn" /\ \A k \in Clocks : spc[k] \in {"sending", "done"}
+  /\ \A x \in DOMAIN osnd : osnd[x].st # "measuring"            \* also those of earlier rounds
 Returned == mpc \in {"done", "panicked"}      \* the call has come back (a panic unwinds it)
 AllDone ==
   /\ Returned
   /\ \A k \in Clocks : spc[k] = "done"
   /\ dpc = "done"
+  /\ osnd = <<>> /\ odr = <<>>
   /\ p2 # "in"
 
 \* "returns no later than the round's deadline however slow, blocked or
@@ -260,12 +397,12 @@ ByDeadline ==
 ExactlyOncePrefix ==
   /\ j \in 0 .. n
   /\ \A x, y \in 1 .. j : x # y => ms[x] # ms[y]                    \* once
-  /\ Range(Prefix) = {k \in got : oc[k] = "ok"}                      \* the received successes
+  /\ Range(Prefix) = {k \in got : oc[k] = "ok"}                      \* the received successes (of this round's clocks)
   /\ \A x \in (j + 1) .. n : ms[x] = 0                               \* nothing else is written
 InTimeCounted ==
   mpc = "done" =>
     /\ \A k \in Clocks : (oc[k] = "ok" /\ dl[k] < D) => k \in Range(Prefix)
-    /\ \A k \in Range(Prefix) : dl[k] <= rt
+    /\ \A k \in Range(Prefix) \cap Clocks : dl[k] <= rt
 
 \* "leaves no goroutine behind once every clock's measurement call has
 \* returned"  (liveness; checked under FairSpec without state constraint)
@@ -284,7 +421,22 @@ CounterRestored ==
   /\ p2phase = "after" => p2 \in {"in", "done"}
 
 ----------------------------------------------------------------------------
+(* What a round may show, in closed form (a lemma about Next, checked by    *)
+(* TLC as the invariant OutcomeIsOfForm; used by the trace specification    *)
+(* to explain rounds of scenarios that are too large to enumerate): the     *)
+(* round returns when its last clock has answered if all answer before the  *)
+(* deadline, else at the deadline; the prefix holds every success that was  *)
+(* ready before the deadline and any of those ready at the deadline --      *)
+(* whatever earlier rounds left behind.                                     *)
+OutcomeForm(m, d, o, r, P) ==
+  /\ r = IF \A k \in 1 .. m : d[k] < D THEN SetMax({0} \cup {d[k] : k \in 1 .. m}) ELSE D
+  /\ {k \in 1 .. m : o[k] = "ok" /\ d[k] < D} \subseteq P
+  /\ P \subseteq {k \in 1 .. m : o[k] = "ok" /\ d[k] <= D}
+OutcomeIsOfForm == mpc = "done" => OutcomeForm(n, dl, oc, rt, Range(Prefix))
+
+----------------------------------------------------------------------------
 TypeOK ==
+  /\ rnd \in 1 .. Rounds
   /\ n \in 0 .. MaxClocks /\ now \in 0 .. TEnd /\ ctxDone \in BOOLEAN /\ num \in 0 .. 1
   /\ mpc \in {"cas", "spawn", "loop", "godrain", "restore", "done", "panicked"}
   /\ i \in 0 .. n /\ j \in 0 .. n /\ dn \in 0 .. n
@@ -292,5 +444,8 @@ TypeOK ==
   /\ dpc \in {"none", "run", "done"}
   /\ p2 \in {"idle", "in", "done", "panicked"}
   /\ rt \in -1 .. TEnd
+  /\ \A x \in DOMAIN osnd : osnd[x].st \in {"measuring", "sending"} /\ osnd[x].t \in 0 .. TEnd
+  /\ \A y \in DOMAIN odr : odr[y].dn \in 0 .. MaxClocks
+  /\ gap \in 0 .. MaxGap /\ live \in 0 .. (Rounds * (MaxClocks + 1))
 BusyIsEnabled == Busy <=> ENABLED Urgent
 =============================================================================
